@@ -159,15 +159,18 @@ package util
 //@   effectfree
 //@   trusted "abstract clock: any time value"
 //@ extern func (t time.Time).IsZero() (b bool)
+//@   functional timeIsZero
 //@   effectfree
-//@   trusted "pure"
+//@   trusted "pure function of the time value"
 //@ extern func (t time.Time).Sub(u time.Time) (d time.Duration)
+//@   functional timeSub
 //@   effectfree
-//@   trusted "pure; any duration (the property quantifies over elapsed times incl. 0)"
+//@   trusted "pure function of the two time values; any duration (the property quantifies over elapsed times incl. 0)"
 //@ extern func (d time.Duration).Seconds() (s float64)
+//@   functional durSeconds
 //@   effectfree
 //@   ensures fin(s)
-//@   trusted "Duration.Seconds is finite"
+//@   trusted "Duration.Seconds is a finite function of the duration"
 //@ extern func time.Sleep(d time.Duration)
 //@   effectfree
 //@   trusted "sleeping has no effect on program state"
@@ -191,6 +194,10 @@ package util
 //@   ghostdo pidSteps := pidSteps + 1
 //@   ensures same(lastPidOut, result)
 //@   ensures pidSteps == old(pidSteps) + 1
+//@   ensures[C06.pid.first] timeIsZero(old(p.lastTime)) ==> same(result, 0.0) && same(p.integral, old(p.integral))
+//@   ensures[C06.pid.integral] !timeIsZero(old(p.lastTime)) ==> same(p.integral, old(p.integral) + (target - measured) * durSeconds(timeSub(p.lastTime, old(p.lastTime))))
+//@   ensures[C06.pid.term] !timeIsZero(old(p.lastTime)) ==> same(result, p.p * (target - measured) + p.i * p.integral + p.d * (((target - measured) - old(p.error)) / durSeconds(timeSub(p.lastTime, old(p.lastTime)))))
+//@   ensures[C06.pid.error] same(p.error, target - measured)
 //@   modifies p.integral, p.error, p.lastTime, lastPidOut, pidSteps
 
 //@ extern func errors.Is(err error, target error) (b bool)
